@@ -1,7 +1,7 @@
 /* UNIT
 {
  "id": "PP.next",
- "file": "pp.c", "function": "next",
+ "file": "pp.c", "function": "next", "also_functions": ["keyword"],
  "properties": {"C12": "contract", "C13": "contract", "C19": "safety"},
  "mode": "harness",
  "replace_calls": {"rawnext": "stub_rawnext", "expand": "stub_expand"},
